@@ -9,6 +9,7 @@ HashMapContext) — `entryPoints_agree`. The model's entry points are that rule 
 -/
 import EvalexprVerif.Proofs.ContextRefine
 import EvalexprVerif.Proofs.AgreeEntry
+import EvalexprVerif.Proofs.AgreeFnInterface
 
 namespace Evalexpr.Spec.C12
 open Evalexpr Evalexpr.Spec
@@ -39,5 +40,37 @@ theorem C12_fresh (k : Kind) (n : Node) (s : St) :
 /-- equal state, equal input ⇒ equal result: the entry points are functions (no hidden state; see also C15 purity) -/
 theorem C12_function (k : Kind) (m : Mode) (src : List Char) (s₁ s₂ : St) (h : s₁ = s₂) :
     runString k m src s₁ = runString k m src s₂ := by rw [h]
+
+/-- every string-level entry point is the projection of the untyped one of the same mode -/
+theorem C12_string_projection (k : Kind) (m : Mode) (src : List Char) (s : St) :
+    runString k m src s = (k.project (runString .value m src s).1, (runString .value m src s).2) := by
+  unfold runString
+  cases buildOperatorTree src with
+  | error e => cases k <;> rfl
+  | ok n =>
+    simp only [C12_projection]
+    cases h : (runTreeUntyped m n s).1 with
+    | error e => cases k <;> simp [Kind.project]
+    | ok v => cases k <;> cases v <;> simp [Kind.project]
+
+/-- **C12 about the code as translated on this run**: the rendered typed wrappers of src/interface/mod.rs (here the seven
+read-only ones; the mutable and context-free ones have the same theorems in `Proofs/AgreeFnInterface.lean`), embedded into
+`Value`, are the projections of the rendered untyped `eval_with_context` — payload if the variant matches, the matching
+expected-type error otherwise, errors unchanged, `number` converting integers — and leave the same state -/
+theorem C12_projection_generated (src : List Char) (s : St) :
+    let u := Gen.eval_with_context src s
+    Prod.map (Except.map Value.string) id (Gen.eval_string_with_context src s) = (Kind.project .string u.1, u.2) ∧
+    Prod.map (Except.map Value.int) id (Gen.eval_int_with_context src s) = (Kind.project .int u.1, u.2) ∧
+    Prod.map (Except.map Value.float) id (Gen.eval_float_with_context src s) = (Kind.project .float u.1, u.2) ∧
+    Prod.map (Except.map Value.float) id (Gen.eval_number_with_context src s) = (Kind.project .number u.1, u.2) ∧
+    Prod.map (Except.map Value.boolean) id (Gen.eval_boolean_with_context src s) = (Kind.project .boolean u.1, u.2) ∧
+    Prod.map (Except.map Value.tuple) id (Gen.eval_tuple_with_context src s) = (Kind.project .tuple u.1, u.2) := by
+  intro u
+  simp only [u, AgreeFn.fn_eval_with_context_agree, AgreeFn.fn_eval_string_with_context_agree,
+    AgreeFn.fn_eval_int_with_context_agree, AgreeFn.fn_eval_float_with_context_agree,
+    AgreeFn.fn_eval_number_with_context_agree, AgreeFn.fn_eval_boolean_with_context_agree,
+    AgreeFn.fn_eval_tuple_with_context_agree]
+  exact ⟨C12_string_projection _ _ _ _, C12_string_projection _ _ _ _, C12_string_projection _ _ _ _,
+    C12_string_projection _ _ _ _, C12_string_projection _ _ _ _, C12_string_projection _ _ _ _⟩
 
 end Evalexpr.Spec.C12
